@@ -230,8 +230,11 @@ def corpus_net(rng, name):
     """hand-built reproducers of the known findings (run first on every run)"""
     import netgen
 
-    b = make_builder(rng, name, "int8")
-    x = b.input({"known_pad_conv_reshape": [1, 4, 9, 4], "known_lut_reshape": [1, 3, 9, 8],
+    b = make_builder(rng, name, "int16" if name == "known_fc_int16" else "int8")
+    if name == "known_fc_int16":
+        x = b.input([1, 2, 1, 16], scale=0.0011566292960196733, zp=0)
+    else:
+      x = b.input({"known_pad_conv_reshape": [1, 4, 9, 4], "known_lut_reshape": [1, 3, 9, 8],
                  "known_cascade_stale_row": [1, 10, 8, 8], "known_slice_strided_conv": [1, 6, 6, 4]}.get(name, [1, 6, 6, 8]), scale=0.05, zp=3)
     if name == "known_slice_relu":
         y = b.pool(x, "MAX_POOL_2D", (3, 3), (1, 1), "SAME")
@@ -265,6 +268,12 @@ def corpus_net(rng, name):
     elif name == "known_slice_strided_conv":
         s1 = b.strided_slice(x, [0, 1, 2, 0], [1, 3, 4, 4])
         z = b.conv(s1, 4, (1, 1), (4, 4), (1, 1), "SAME", act=0)
+    elif name == "known_fc_int16":
+        z = b.fc(b.reshape(x, [1, 32]), 10)
+        b.t(z).scales = [0.41879141330718994]
+        fc = b.net.ops[-1]
+        b.t(fc.inputs[1]).scales = [0.0021146892104297876]       # real multiplier 5.8e-6: reduced shift 32 >= 31
+        b.t(fc.inputs[2]).scales = [0.0011566292960196733 * 0.0021146892104297876]
     elif name == "known_reshape_relu":
         z = b.unary("RELU6", b.reshape(x, [1, 4, 9, 8]))
     else:  # known_quantize_relu
@@ -403,15 +412,21 @@ def classify_failure(o, ans):
                 return "lut-activation-then-reshape-resets-shapes"
     if not ans.endswith("verdict=fail"):
         return None
+    if o.get("dtype") == "int16" and any(k[0] == "FULLY_CONNECTED" for k in g) and \
+            all(int(d) <= 1 for d in re.findall(r"maxdiff=(\d+)", ans)):
+        return "int16-fully-connected-rounds-twice"
     for kind, ins, outs, faf, pad, stride_w in g:
         if kind in ("STRIDED_SLICE", "SPLIT"):
             src = ins[0] if kind == "STRIDED_SLICE" else ins[1]
             if src in producer and producer[src][0] in ("STRIDED_SLICE", "SPLIT"):
                 return "slice-of-slice-read-offsets-not-accumulated"
     for kind, ins, outs, faf, pad, stride_w in g:
-        if kind in ("CONV_2D", "DEPTHWISE_CONV_2D", "MAX_POOL_2D", "AVERAGE_POOL_2D") and pad == 0 and ins and ins[0] in producer \
-                and producer[ins[0]][0] in ("STRIDED_SLICE", "SPLIT"):
-            return "slice-read-offset-window-rows-not-clamped-to-slice"
+        if kind in ("CONV_2D", "DEPTHWISE_CONV_2D", "MAX_POOL_2D", "AVERAGE_POOL_2D") and ins and ins[0] in producer:
+            pk, _pf, pins = producer[ins[0]]
+            # padded window directly on the slice (SAME), or through a PAD that is folded into the window's padding
+            if (pad == 0 and pk in ("STRIDED_SLICE", "SPLIT")) or \
+                    (pk == "PAD" and pins and pins[0] in producer and producer[pins[0]][0] in ("STRIDED_SLICE", "SPLIT")):
+                return "slice-read-offset-window-rows-not-clamped-to-slice"
     for kind, ins, outs, faf, pad, stride_w in g:
         if kind == "AVERAGE_POOL_2D" and pad == 1 and faf != 0 and ins and ins[0] in producer and producer[ins[0]][0] == "PAD":
             return "pad-folded-into-avgpool-fused-activation-clamps-with-zero-point-0"
@@ -468,7 +483,7 @@ def main():
     n = 50000 if ck.thorough else 6000
     k_inputs = 5 if ck.thorough else 4
     jobs = [(0, 0, "known_" + nm, k_inputs) for nm in ("slice_relu", "fused_act_relu", "pad_conv_reshape", "quantize_relu", "reshape_relu",
-                                                              "slice_window", "lut_reshape", "cascade_stale_row", "pad_avgpool_act", "slice_of_slice", "slice_strided_conv")]
+                                                              "slice_window", "lut_reshape", "cascade_stale_row", "pad_avgpool_act", "slice_of_slice", "slice_strided_conv", "fc_int16")]
     jobs += [(ck.seed, i, PROFILES[i % len(PROFILES)], k_inputs) for i in range(n)]
     ctx = multiprocessing.get_context("fork")
     with ProcessPoolExecutor(min(16, os.cpu_count() or 4), mp_context=ctx) as ex:
@@ -499,6 +514,7 @@ def main():
             continue
         if not ans.startswith("ok "):
             key = classify_failure(o, ans)
+            ck.count(("attributed_to_known_finding:" + key) if key else "unattributed_failure")
             ck.violation(f"execution of the {'output' if ':out:' in ans else 'source'} model failed in Lean: {ans[:300]} "
                          f"(network {o['idx']} {o['profile']} {o['src_ops']} {o['opts']})", rp, found_input=key is not None, key=key)
             continue
@@ -523,6 +539,7 @@ def main():
             nontrivial.add((o["profile"], o["idx"], tuple(o["opts"])))
         if ans.endswith("verdict=fail"):
             key = classify_failure(o, ans) or classify_by_stream(o)
+            ck.count(("attributed_to_known_finding:" + key) if key else "unattributed_failure")
             ck.violation(f"compiled model differs from the source model: {ans[:400]} "
                          f"(network {o['idx']} {o['profile']} {o['src_ops']} {o['opts']})", rp, key=key)
     for o, ans in list(zip(owners, answers))[:4]:
